@@ -107,7 +107,8 @@ func runGenX(e *env, s *GenXSpec) StepObs {
 	o := StepObs{X: -1}
 	cg := clienttypes.GenesisState{NativeChainName: string(unhex(s.Native))}
 	for i := range s.Clients {
-		any, _ := buildCS(&s.Clients[i].CS)
+		any, or := buildCS(&s.Clients[i].CS)
+		o.COracles = append(o.COracles, or)
 		cg.Clients = append(cg.Clients, clienttypes.IdentifiedClientState{ChainName: string(unhex(s.Clients[i].Chain)), ClientState: any})
 	}
 	for _, cc := range s.Consensus {
